@@ -157,6 +157,10 @@ class StoreRun:
             for b in self.buffered:
                 self.written[b.hash()] = b
             self.buffered = []
+        self._flush_event(raised, honest)
+        return not raised
+
+    def _flush_event(self, raised, honest):
         ev = {"op": "flush", "raised": raised, "honest": honest, "read": [], "ledger_equal": True,
               "head_height_equal": True, "continue_after_known": True}
         if not raised:
@@ -185,6 +189,114 @@ class StoreRun:
                 ev["head_height_equal"] = False
         self.events.append(ev)
         return not raised
+
+    def raw_rows(self):
+        """The four tables' key columns through a plain sqlite3 connection, as aliases."""
+        import sqlite3
+        con = sqlite3.connect(self.path)
+        try:
+            w = self.w
+            chain = sorted(w.balias(bytes(r[0])) for r in con.execute("select block_hash from chain"))
+            loc = sorted([w.talias(bytes(r[0])), w.balias(bytes(r[1]))] for r in con.execute("select transaction_hash, block_hash from transaction_locator"))
+            outs = sorted([w.talias(bytes(r[0])), r[1]] for r in con.execute("select transaction_hash, seq from transaction_outputs"))
+            ins = sorted([w.talias(bytes(r[0])), r[1]] for r in con.execute("select transaction_hash, seq from transaction_inputs"))
+        finally:
+            con.close()
+        return {"chain": chain, "loc": loc, "outs": outs, "ins": ins}
+
+    def flush_crash(self, k, cum_subsidy=None):
+        """The process dies at the k-th SQL statement execution of this flush (a forked copy of this process runs the real
+        flush_blocks_to_disk on the real file and is killed with SIGKILL from an sqlite trace callback just before the k-th statement --
+        BEGIN, each row of the four executemany() calls, COMMIT -- runs); then the node restarts: a fresh BlockStore on the same file, an
+        empty write buffer, the chain rebuilt with the real read_chain_from_disk.  Returns False (and records an ordinary flush) when the
+        flush has fewer than k statements."""
+        import signal
+        pid = os.fork()
+        if pid == 0:
+            try:
+                n = [0]
+
+                def cb(_stmt):
+                    n[0] += 1
+                    if n[0] == k:
+                        os.kill(os.getpid(), signal.SIGKILL)
+                self.store.connection.set_trace_callback(cb)
+                self.store.flush_blocks_to_disk()
+            except BaseException:
+                os._exit(3)
+            os._exit(0)
+        _, status = os.waitpid(pid, 0)
+        killed = os.WIFSIGNALED(status)
+        if not killed and os.WEXITSTATUS(status) != 0:
+            raise RuntimeError("the forked flush raised")
+        # restart: the parent's connection never took part in the flush; it is dropped like the dead process's memory
+        handed = list(self.buffered)
+        try:
+            self.store.close()
+        except Exception:
+            pass
+        with contextlib.redirect_stdout(io.StringIO()):
+            self.store = self.bs.BlockStore(self.path)
+        if not killed:
+            for b in handed:
+                self.written[b.hash()] = b
+            self.buffered = []
+            # (the event of a completed flush: the same read-back comparison as flush())
+            self.store.write_buffer.clear()
+            self._flush_event(False, True)
+            return False
+        self.buffered = []
+        allb = dict(self.written)
+        for b in handed:
+            allb[b.hash()] = b
+        blocks = self.read_back()
+        ev = {"op": "crash", "k": k, "read": [], "rows": self.raw_rows(), "ledger_equal": True, "spent_is_unspent": False, "total_exceeds": False}
+        for b in blocks:
+            wb = allb.get(b.hash())
+            same = wb is not None and indep.enc_block(b) == indep.enc_block(wb) and \
+                [t.hash() for t in b.transactions] == [indep.txid(t) for t in wb.transactions] and indep.blockid(b) == b.hash()
+            ab = abstract_block(self.w, b)
+            ev["read"].append({"id": ab["id"], "parent": ab["parent"], "height": ab["height"], "txids": [t["id"] for t in ab["txs"]], "bytes_equal": same})
+        try:
+            cs = self.rebuild(blocks)
+        except Exception as e:
+            cs = None
+            ev["ledger_equal"] = False
+            ev["rebuild_error"] = repr(e)[:200]
+        if cs is not None:
+            # the ledger the restarted node holds at every block it has, against a replay of the blocks as they were handed over
+            for h in cs.block_by_hash:
+                if h not in allb:
+                    continue
+                chain, x = [], h
+                while x in allb:
+                    chain.append(allb[x])
+                    x = allb[x].header.summary.previous_block_hash
+                chain.reverse()
+                unspent, spent = {}, set()
+                for blk_ in chain:
+                    for t in blk_.transactions:
+                        for i in t.inputs:
+                            r = (i.output_reference.hash, i.output_reference.index)
+                            if r[0] != b"\x00" * 32:
+                                unspent.pop(r, None)
+                                spent.add(r)
+                        th = indep.txid(t)
+                        for n_, o in enumerate(t.outputs):
+                            unspent[(th, n_)] = o.value
+                try:
+                    real = {(ref.hash, ref.index): out.value for ref, out in cs.unspent_transaction_outs_by_hash[h].items()}
+                except Exception:
+                    real = None
+                if real != unspent:
+                    ev["ledger_equal"] = False
+                if real is not None:
+                    if any(r in real for r in spent):
+                        ev["spent_is_unspent"] = True
+                    if cum_subsidy is not None and sum(real.values()) > cum_subsidy(allb[h].header.summary.height):
+                        ev["total_exceeds"] = True
+        self.events.append(ev)
+        return True
 
     def flush_with_concurrent_add(self, block, wait=0.2):
         """The real node has two writers on one BlockStore (the network thread's handle_block_received and the miner's found-block
@@ -342,8 +454,8 @@ class StoreRun:
         self.lock_traces.append({"buffer0": buffer0, "disk0": disk0, "events": evs, "disk_end": disk_end, "errors": errors})
         return ok and ok2
 
-    def trace(self, tid):
-        return {"id": tid, "genesis": abstract_block(self.w, self.genesis), "events": self.events}
+    def trace(self, tid, prop="C08"):
+        return {"id": tid, "prop": prop, "genesis": abstract_block(self.w, self.genesis), "events": self.events}
 
     def close(self):
         try:
